@@ -857,7 +857,7 @@ pub fn prop() -> Prop {
         ],
         subs: vec![
             Sub { name: "formulas-exhaustive", kind: Kind::Exhaustive(exhaustive) },
-            Sub { name: "random-formulas", kind: Kind::Random { f: random_formulas, quick: 80_000, thorough: 1_600_000, len: 300 } },
+            Sub { name: "random-formulas", kind: Kind::Random { f: random_formulas, quick: 80_000, thorough: 1_600_000, len: 600 } },
             Sub { name: "random-several-filters", kind: Kind::Random { f: random_several_filters, quick: 48_000, thorough: 960_000, len: 300 } },
             Sub { name: "random-scoping", kind: Kind::Random { f: random_scoping, quick: 80_000, thorough: 1_600_000, len: 200 } },
         ],
